@@ -371,8 +371,10 @@ static void emit_begin(const char *op, int e)
 {
     stepno++;
     fprintf(out, "{\"x\":%ld,\"n\":%ld,\"op\":\"%s\",\"e\":%d,\"len\":%ld,\"cap\":%ld,\"cond\":%d,"
-	    "\"ret\":%d,\"err\":%d,\"mi\":%d,\"fl\":%d,\"ok\":%d,\"rst\":%d,\"rty\":%d,\"gl\":%ld",
-	    xid, stepno, op, e, F.len, F.cap, F.cond, F.ret, F.err, F.mi, F.fl, F.ok, F.rst, F.rty, F.gl - 1);
+	    "\"ret\":%d,\"err\":%d,\"mi\":%d,\"fl\":%d,\"ok\":%d,\"rst\":%d,\"rty\":%d,\"gl\":%ld,\"pcl\":%d",
+	    xid, stepno, op, e, F.len, F.cap, F.cond, F.ret, F.err, F.mi, F.fl, F.ok, F.rst, F.rty, F.gl - 1,
+	    /* pcl: the peer of this endpoint has been closed by now (only then may this endpoint be shown the end) */
+	    (e == 1 || e == 2) ? (raw_mode ? -1 : ep[3 - e] == NULL) : -1);
     memset(&F, 0, sizeof(F));
 }
 
